@@ -87,7 +87,7 @@ pub(crate) fn round(range: Span<u32>, arguments: Vec<Numeric>) -> Result<Numeric
         value
     };
 
-    debug_assert!(value.denom().is_one());
+    debug_assert!(second > 0 || value.denom().is_one());
     Ok(Numeric::new(value, first.unit))
 }
 
